@@ -25,7 +25,6 @@ import (
 	"verif/internal/core"
 	"verif/internal/jsoracle"
 	"verif/internal/numref"
-	"verif/internal/oracle/xmlinfo"
 	c08 "verif/internal/props/c08"
 )
 
@@ -465,21 +464,31 @@ func runNumbers(c *core.Check) {
 		}
 	}
 	// SVG KeepComments / XML KeepWhitespace quick probes (their semantic oracles are C05/C06)
-	for _, keep := range []bool{false, true} {
-		m := minify.New()
-		m.Add("image/svg+xml", &svg.Minifier{KeepComments: keep})
-		m.Add("text/xml", &xml.Minifier{KeepWhitespace: keep})
-		out, _ := m.String("image/svg+xml", "<svg><!-- c --><g/><!--d--></svg>")
-		items, _ := xmlinfo.Tokenize(out)
-		n := 0
-		for _, it := range items {
-			if it.Kind == xmlinfo.Comment {
-				n++
-			}
+	// every sequence of <=3 pieces: comments at document level, between siblings, as the only content of
+	// an element, next to white space and text
+	svgPieces := []string{"<!-- c -->", "<g/>", "<g><!--d--></g>", "<g> <!-- e --> </g>", "<text>t<!--f-->u</text>", " ", "<defs>\n<!-- g -->\n</defs>", "<g><!--h--><path d=\"M0 0\"/></g>"}
+	seq := core.Sequences{K: len(svgPieces), MaxLen: 3}
+	for i := uint64(1); i < seq.Count(); i++ {
+		var b strings.Builder
+		b.WriteString("<svg>")
+		for _, k := range seq.At(i, nil) {
+			b.WriteString(svgPieces[k])
 		}
-		c.Count(1)
-		if keep && n != 2 || !keep && n != 0 {
-			c.Fail(core.Failure{Family: fam, Input: "<svg><!-- c --><g/><!--d--></svg>", Config: fmt.Sprintf("svg KeepComments=%v", keep), Kind: "option-not-honoured:KeepComments", What: fmt.Sprintf("output %q has %d comments", out, n)})
+		b.WriteString("</svg>")
+		doc := b.String()
+		want := strings.Count(doc, "<!--")
+		for _, keep := range []bool{false, true} {
+			m := minify.New()
+			m.Add("image/svg+xml", &svg.Minifier{KeepComments: keep})
+			out, _ := m.String("image/svg+xml", doc)
+			n := strings.Count(out, "<!--")
+			c.Count(1)
+			if out != doc {
+				c.Nontrivial("svg-keepcomments", doc, fmt.Sprint(keep))
+			}
+			if keep && n != want || !keep && n != 0 {
+				c.Fail(core.Failure{Family: fam, Input: doc, Config: fmt.Sprintf("svg KeepComments=%v", keep), Kind: "option-not-honoured:KeepComments", What: fmt.Sprintf("output %q has %d of %d comments", out, n, want)})
+			}
 		}
 	}
 }
@@ -527,6 +536,23 @@ func runCLI(c *core.Check) {
 		{"--json-keep-numbers", "a.json", "[1.0,1e3]", "application/json", func() minify.Minifier { return &mjson.Minifier{KeepNumbers: true} }},
 		{"--svg-keep-comments", "a.svg", "<svg><!--c--><g/></svg>", "image/svg+xml", func() minify.Minifier { return &svg.Minifier{KeepComments: true} }},
 		{"--svg-precision=2", "a.svg", `<svg><rect width="1.23456"/></svg>`, "image/svg+xml", func() minify.Minifier { return &svg.Minifier{Precision: 2} }},
+		// the template types are served by copies of the HTML minifier: the flags must reach them too
+		{"--html-keep-end-tags", "a.php", h, "application/x-httpd-php", func() minify.Minifier {
+			return &html.Minifier{KeepEndTags: true, TemplateDelims: [2]string{"<?", "?>"}}
+		}},
+		{"--html-keep-comments", "a.asp", h, "text/asp", func() minify.Minifier {
+			return &html.Minifier{KeepComments: true, TemplateDelims: [2]string{"<%", "%>"}}
+		}},
+		{"--html-keep-quotes", "a.tmpl", h, "text/x-go-template", func() minify.Minifier { return &html.Minifier{KeepQuotes: true, TemplateDelims: [2]string{"{{", "}}"}} }},
+		{"--html-keep-document-tags", "a.mustache", h, "text/x-mustache-template", func() minify.Minifier {
+			return &html.Minifier{KeepDocumentTags: true, TemplateDelims: [2]string{"{{", "}}"}}
+		}},
+		{"--html-keep-default-attrvals", "a.ejs", h, "text/x-ejs-template", func() minify.Minifier {
+			return &html.Minifier{KeepDefaultAttrVals: true, TemplateDelims: [2]string{"<%", "%>"}}
+		}},
+		{"--html-keep-whitespace", "a.handlebars", h, "text/x-handlebars-template", func() minify.Minifier {
+			return &html.Minifier{KeepWhitespace: true, TemplateDelims: [2]string{"{{", "}}"}}
+		}},
 		{"--xml-keep-whitespace", "a.xml", "<a> <b> c </b> </a>", "text/xml", func() minify.Minifier { return &xml.Minifier{KeepWhitespace: true} }},
 		{"", "a.css", "a{width:1.23456px}", "text/css", func() minify.Minifier { return &css.Minifier{} }},
 		{"", "a.html", h, "text/html", func() minify.Minifier { return &html.Minifier{} }},
